@@ -166,6 +166,9 @@ def validation_cases():
             cases.append(["missing-key", field, k, "single"])
             cases.append(["missing-key", field, k, "list-pos0"])
             cases.append(["missing-key", field, k, "list-pos1"])
+    cases.append(["bad-meta", "http-equiv-no-name"])
+    cases.append(["bad-meta", "charset-only"])
+    cases.append(["bad-meta", "name-no-content"])
     for bad in ("str", "list", "int", "tuple"):
         cases.append(["bad-source", bad])
     cases.append(["source-no-key", "empty"])
@@ -214,6 +217,12 @@ def fn_validation(case):
         good = copy.deepcopy(ITEM[f])
         val = {"single": bad, "list-pos0": [bad, good], "list-pos1": [good, bad]}[how]
         must_reject(**{f: val})
+    elif kind == "bad-meta":
+        val = {"http-equiv-no-name": {"http-equiv": "refresh", "content": "5"},
+               "charset-only": {"charset": "utf-8"},
+               "name-no-content": {"name": "n", "http-equiv": "x"}}[case[1]]
+        must_reject(meta=val)
+        must_reject(meta=[{"name": "ok", "content": "c"}, val])
     elif kind == "bad-source":
         val = {"str": "lib/x", "list": ["lib"], "int": 3, "tuple": ("subdir", "x")}[case[1]]
         must_reject(source=val)
